@@ -599,6 +599,39 @@ def load(repo=None, extra_units=(), extra_roots=(), extra_flags=()):
     missing = [u for u in units if not os.path.exists(os.path.join(udir, keys[u] + '.json'))]
     db = DB()
     db.cached = not missing
+    texts = {}
+    for attempt in range(4):
+        _extract_missing(missing, repo, extra_roots, fl, keys, udir)
+        # read everything now; an entry evicted by a concurrent run between the existence test and the read is extracted again
+        missing = []
+        for u in units:
+            if u in texts:
+                continue
+            path = os.path.join(udir, keys[u] + '.json')
+            try:
+                with open(path) as fh:
+                    texts[u] = fh.read()
+                try:
+                    os.utime(path)
+                except OSError:
+                    pass
+            except FileNotFoundError:
+                missing.append(u)
+        if not missing:
+            break
+    if missing:
+        raise AnalysisBroken('facts cache: %d unit(s) could not be read back after extraction' % len(missing))
+    for u in units:
+        db.add_unit(None, json.loads(texts[u].replace(ROOT_TOKEN + '/', repo + '/')))
+    texts.clear()
+    db.extract_s = time.time() - t0
+    db.repo = repo
+    from . import normal
+    db.inlined_helpers = normal.inline_new_helpers(db)
+    return db
+
+
+def _extract_missing(missing, repo, extra_roots, fl, keys, udir):
     if missing:
         _evict_units(udir)
         _evict_units(FACTS, cap=40)
@@ -617,17 +650,3 @@ def load(repo=None, extra_units=(), extra_roots=(), extra_flags=()):
                 os.replace(part, os.path.join(udir, keys[u] + '.json'))
         finally:
             shutil.rmtree(tmp, ignore_errors=True)
-    for u in units:
-        path = os.path.join(udir, keys[u] + '.json')
-        with open(path) as fh:
-            text = fh.read()
-        try:
-            os.utime(path)
-        except OSError:
-            pass
-        db.add_unit(None, json.loads(text.replace(ROOT_TOKEN + '/', repo + '/')))
-    db.extract_s = time.time() - t0
-    db.repo = repo
-    from . import normal
-    db.inlined_helpers = normal.inline_new_helpers(db)
-    return db
